@@ -730,12 +730,24 @@ func (lb *LoadBalancer) proxyRequest(backend *Backend, w http.ResponseWriter, r 
 		statusCode:     http.StatusOK, // Default status code
 	}
 
+	// Release the connection and record the outcome on every way out, including the
+	// panic (http.ErrAbortHandler) the reverse proxy raises when the response body
+	// cannot be copied to the end
+	completed := false
+	defer func() {
+		// Decrement the connection count when done
+		backend.DecrementConnections()
+		lb.metricsCollector.UpdateBackendConnections(backend.Name, backend.GetActiveConnections())
+
+		if !completed {
+			// Aborted mid-response: a failed request of this backend
+			lb.recordRequestMetrics(backend, http.StatusBadGateway, startTime, r)
+		}
+	}()
+
 	// Forward the request to the selected backend
 	backend.ReverseProxy.ServeHTTP(rw, r)
-
-	// Decrement the connection count when done
-	backend.DecrementConnections()
-	lb.metricsCollector.UpdateBackendConnections(backend.Name, backend.GetActiveConnections())
+	completed = true
 
 	// Record metrics and handle passive health checks
 	lb.recordRequestMetrics(backend, rw.statusCode, startTime, r)
